@@ -1,9 +1,172 @@
 import Lean.Data.Json
-/-! Line-protocol handler for property C06 (model side of the correspondence). -/
-namespace Drv.C06
-open Lean
+import SpoxModel.Model.MLInfer
+import SpoxModel.Model.RtShape
+/-! Line-protocol handler for property C06 (model side of the correspondence).
 
-/-- One request (a JSON value) in, one response (a JSON value) out. -/
-def handle (_req : Json) : Json := Json.mkObj [("error", "unimplemented")]
+  {"k":"infer","op":O,"a":_,"b":_,"c":_,"in":[type…]}            → {"ok":[type|null…]} | {"err":E}
+  {"k":"loop","A":[…],"R":[…],"S":[…],"pinned":bool}             → same
+  {"k":"rt","op":O,"a":_,"b":_,"c":_,"kk":k,"vals":[value…]}     → {"rt":[value…]|null}
+  {"k":"conf","val":value,"ty":type}                              → {"conf":bool}
+  {"k":"strip","ty":type,"all":bool}                              → {"ty":type}
+-/
+namespace Drv.C06
+open Lean C06M
+
+def elemOfStr : String → Except String Elem
+  | "f32" => pure .f32 | "f64" => pure .f64 | "i32" => pure .i32 | "i64" => pure .i64
+  | "bool" => pure .bool | "str" => pure .str
+  | s => throw s!"bad elem {s}"
+
+def elemToStr : Elem → String
+  | .f32 => "f32" | .f64 => "f64" | .i32 => "i32" | .i64 => "i64" | .bool => "bool" | .str => "str"
+
+def dimOfJson : Json → Except String Dim
+  | .null => pure .anon
+  | .str s => pure (.named s)
+  | j => do let n ← j.getNat?; pure (.const n)
+
+def dimToJson : Dim → Json
+  | .const n => toJson n
+  | .named s => toJson s
+  | .anon => .null
+
+def tyOfJson (j : Json) : Except String ITy :=
+  match j with
+  | .null => pure none
+  | _ => do
+    let e ← elemOfStr (← j.getObjValAs? String "e")
+    let sj ← j.getObjVal? "s"
+    match sj with
+    | .null => pure (some ⟨e, none⟩)
+    | _ => do
+      let arr ← sj.getArr?
+      let ds ← arr.toList.mapM dimOfJson
+      pure (some ⟨e, some ds⟩)
+
+def tyToJson : ITy → Json
+  | none => .null
+  | some t => Json.mkObj [("e", elemToStr t.e),
+      ("s", match t.s with | none => .null | some ds => Json.arr (ds.map dimToJson).toArray)]
+
+def valOfJson (j : Json) : Except String RtVal := do
+  let e ← elemOfStr (← j.getObjValAs? String "e")
+  let s ← j.getObjValAs? (List Nat) "s"
+  pure ⟨e, s⟩
+
+def valToJson (v : RtVal) : Json := Json.mkObj [("e", elemToStr v.e), ("s", toJson v.s)]
+
+def optNat (j : Json) (k : String) : Option Nat :=
+  match j.getObjVal? k with
+  | .ok v => (v.getNat?).toOption
+  | _ => none
+
+def optInt (j : Json) (k : String) : Option Int :=
+  match j.getObjVal? k with
+  | .ok v => (v.getInt?).toOption
+  | _ => none
+
+def resToJson : Res → Json
+  | .ok outs => Json.mkObj [("ok", Json.arr (outs.map tyToJson).toArray)]
+  | .err .inference => Json.mkObj [("err", "InferenceError")]
+  | .err .typeErr => Json.mkObj [("err", "TypeError")]
+  | .err .valueErr => Json.mkObj [("err", "ValueError")]
+
+def tys (req : Json) (k : String) : Except String (List ITy) := do
+  let arr ← req.getObjValAs? (Array Json) k
+  arr.toList.mapM tyOfJson
+
+def infer (req : Json) : Except String Json := do
+  let op ← req.getObjValAs? String "op"
+  let ins ← tys req "in"
+  let a := optNat req "a"; let b := optNat req "b"; let c := optNat req "c"
+  let x := ins.getD 0 none
+  let y := ins.getD 1 none
+  let r ← match op with
+    | "ArrayFeatureExtractor" => pure (inferArrayFeatureExtractor x y)
+    | "Binarizer" => pure (inferBinarizer x)
+    | "CategoryMapper" => pure (inferCategoryMapper a b x)
+    | "Imputer" => pure (inferImputer a b x)
+    | "LinearRegressor" => pure (inferLinearRegressor (a.getD 1) x)
+    | "Normalizer" => pure (inferNormalizer (a.getD 0 < 3) x)
+    | "OneHotEncoder" => pure (inferOneHotEncoder a b x)
+    | "Scaler" => pure (inferScaler a b x)
+    | "TreeEnsembleClassifier" => pure (inferTreeEnsembleClassifier a b c x)
+    | "TreeEnsembleRegressor" => pure (inferTreeEnsembleRegressor a x)
+    | "Compress" => pure (inferCompress (optInt req "a") x y)
+    | o => throw s!"unknown op {o}"
+  pure (resToJson r)
+
+def rt (req : Json) : Except String Json := do
+  let op ← req.getObjValAs? String "op"
+  let arr ← req.getObjValAs? (Array Json) "vals"
+  let vs ← arr.toList.mapM valOfJson
+  let a := optNat req "a"; let b := optNat req "b"; let c := optNat req "c"
+  let x := vs.getD 0 ⟨.f32, []⟩
+  let y := vs.getD 1 ⟨.f32, []⟩
+  let r ← match op with
+    | "ArrayFeatureExtractor" => pure (rtArrayFeatureExtractor x y)
+    | "Binarizer" => pure (rtBinarizer x)
+    | "CategoryMapper" => pure (rtCategoryMapper x)
+    | "Imputer" => pure (rtImputer x)
+    | "LinearRegressor" => pure (rtLinearRegressor (a.getD 1) x)
+    | "Normalizer" => pure (rtNormalizer x)
+    | "OneHotEncoder" => pure (rtOneHotEncoder a b x)
+    | "Scaler" => pure (rtScaler x)
+    | "TreeEnsembleClassifier" => pure (rtTreeEnsembleClassifier b c x)
+    | "TreeEnsembleRegressor" => pure (rtTreeEnsembleRegressor a x)
+    | "Compress" => pure (rtCompress (optInt req "a") ((optNat req "kk").getD 0) x)
+    | o => throw s!"unknown op {o}"
+  pure (Json.mkObj [("rt", match r with | none => .null | some ws => Json.arr (ws.map valToJson).toArray)])
+
+/-- Bodies for the `loopRun` correspondence: `conds[i]` is the condition iteration `i` returns.
+    "id": carried values unchanged, scan slice = the carried value;
+    "double": first axis doubled (Concat(v, v)), scan slice = a scalar int64. -/
+def bodyOf (kind : String) (conds : List Bool) : Body := fun i vs =>
+  let c := conds.getD i true
+  match kind with
+  | "id" => some (c, vs, vs)
+  | "double" =>
+    some (c, vs.map (fun v => ⟨v.e, match v.s with | n :: r => (2 * n) :: r | [] => []⟩), [⟨.i64, []⟩])
+  | _ => none
+
+def looprun (req : Json) : Except String Json := do
+  let kind ← req.getObjValAs? String "body"
+  let m ← req.getObjValAs? Nat "M"
+  let c0 ← req.getObjValAs? Bool "c0"
+  let conds ← req.getObjValAs? (List Bool) "conds"
+  let arr ← req.getObjValAs? (Array Json) "v0"
+  let v0 ← arr.toList.mapM valOfJson
+  match loopRun (bodyOf kind conds) m 0 c0 v0 with
+  | none => pure (Json.mkObj [("run", .null)])
+  | some (fin, scs) =>
+    let ncols := (scs.head?.map List.length).getD 0
+    let scans := (List.range ncols).map (fun j => match stackScan (column scs j) with
+      | some w => valToJson w | none => .null)
+    pure (Json.mkObj [("run", Json.mkObj [("final", Json.arr (fin.map valToJson).toArray),
+      ("iterations", toJson scs.length), ("scans", Json.arr scans.toArray)])])
+
+def handle (req : Json) : Json :=
+  match (do
+    let k ← req.getObjValAs? String "k"
+    match k with
+    | "infer" => infer req
+    | "rt" => rt req
+    | "looprun" => looprun req
+    | "loop" => do
+      let A ← tys req "A"; let R ← tys req "R"; let S ← tys req "S"
+      let pinned := (req.getObjValAs? Bool "pinned").toOption.getD false
+      pure (resToJson (if pinned then inferLoopPinned A R S else inferLoop A R S))
+    | "conf" => do
+      let v ← valOfJson (← req.getObjVal? "val")
+      let t ← tyOfJson (← req.getObjVal? "ty")
+      pure (Json.mkObj [("conf", conforms v t)])
+    | "strip" => do
+      let t ← tyOfJson (← req.getObjVal? "ty")
+      let all := (req.getObjValAs? Bool "all").toOption.getD true
+      let pred : String → Bool := if all then fun _ => true else fun s => s.startsWith "unk__"
+      pure (Json.mkObj [("ty", tyToJson (t.map (stripTy pred)))])
+    | _ => throw "unknown k") with
+  | .ok j => j
+  | .error e => Json.mkObj [("error", e)]
 
 end Drv.C06
